@@ -9,10 +9,10 @@ pub fn prop() -> Prop {
     Prop {
         id: "C18",
         level: "model_checking",
-        rule: "(8 base expressions and 3 big ones: nesting depth 33, a 300-character literal, 130 arguments) every foreign output option next to every option of the style's own group; every corrupted configuration alone and next to each of 8 valid neighbour options (--take 0/1, --skip, --unique, --merge, --only-objects-and-arrays, a regex cache, --on-error=panic); valid configurations = 7 option positions (--select, --filter, --split-by, --group-by, --sort-by, --set variable, --set macro) x 8 base expressions x 6 output styles (+ every pure function with a canonical argument list in every position, json style); corruptions (one fault each): truncation at EVERY byte offset that lies inside parentheses or a string, one '(' or ')' too many, unknown function name, arity min-1 / max+1 for every function, trailing garbage of 4 kinds, bad sort directions, malformed --set (no '=', empty name, empty macro name, duplicate, empty value), output options of another style, csv without selections / with grouping / with merge, --headers without selections, invalid enum and numeric option values; non-trivial = the uncorrupted configuration runs Ok and prints >= 1 byte; distinct by construction",
+        rule: "(8 base expressions and 3 big ones: nesting depth 33, a 300-character literal, 130 arguments) paths ending in a separator (.a. / .a.b# / (len .a.)) in every position; every foreign output option next to every option of the style's own group; every corrupted configuration alone and next to each of 8 valid neighbour options (--take 0/1, --skip, --unique, --merge, --only-objects-and-arrays, a regex cache, --on-error=panic); valid configurations = 7 option positions (--select, --filter, --split-by, --group-by, --sort-by, --set variable, --set macro) x 8 base expressions x 6 output styles (+ every pure function with a canonical argument list in every position, json style); corruptions (one fault each): truncation at EVERY byte offset that lies inside parentheses or a string, one '(' or ')' too many, unknown function name, arity min-1 / max+1 for every function, trailing garbage of 4 kinds, bad sort directions, malformed --set (no '=', empty name, empty macro name, duplicate, empty value), output options of another style, csv without selections / with grouping / with merge, --headers without selections, invalid enum and numeric option values; non-trivial = the uncorrupted configuration runs Ok and prints >= 1 byte; distinct by construction",
         explanation: "each corrupted configuration is executed on a non-empty input; oracle: Err (or clap usage error), zero bytes on stdout, the stdin factory is never invoked",
         assumptions: COMMON_ASSUMPTIONS.to_vec(),
-        guards: vec!["with-a-neighbour-option", "truncation", "arity", "trailing-garbage", "set-malformed", "style-mismatch", "csv-without-selection", "valid-config-prints"],
+        guards: vec!["dangling-path-separator", "with-a-neighbour-option", "truncation", "arity", "trailing-garbage", "set-malformed", "style-mismatch", "csv-without-selection", "valid-config-prints"],
         budget_s: (100, 900),
         single_worker: false,
         run,
@@ -361,6 +361,18 @@ fn run(ctx: &mut Ctx) {
                 let mut x: Vec<String> = a.iter().map(|s| s.to_string()).collect();
                 x.extend(extra.iter().map(|s: &&str| s.to_string()));
                 judge(ctx, "style-mismatch", name, x, true);
+            }
+        }
+        // a path that ends in a separator (cut exactly after `.` or `#`), bare and inside a call, in every position
+        for e in [".a.", ".a#", ".a.b.", ".arr#0.", ".a.b#", "^.a.", "(len .a.)", "(len .arr#)", "(object? .a.b.)", "(+ .n. 1)", "(map .arr (+ .x. 1))", ".a..b", ".#.", ".a#x"] {
+            for pos in POSITIONS {
+                if pos == "setvar" {
+                    continue;
+                }
+                for style in [0usize, STYLES.len() - 2] {
+                    ctx.guard("dangling-path-separator");
+                    judge(ctx, "dangling-path-separator", &format!("{pos} {e:?}"), with_expr(pos, e, style), true);
+                }
             }
         }
         // a foreign option stays foreign whatever option of the style's own group stands next to it
